@@ -90,5 +90,13 @@ pub fn main() {
         }
     }
     println!("E2 {}: executions={} violations={}", prop.id, executions, violations);
-    std::process::exit(if violations > 0 { 1 } else { 0 });
+    if violations > 0 {
+        std::process::exit(1);
+    }
+    // The component harnesses join every thread they spawn: `main` returns normally, which lets
+    // Miri run its leak check (it is skipped by `process::exit`). Whole simulations may leave a
+    // detached helper thread behind (time-out of the single-threaded executor): those exit.
+    if !matches!(prop.id, "C12" | "C13" | "C14" | "C15") {
+        std::process::exit(0);
+    }
 }
